@@ -2,7 +2,7 @@
 import re
 
 from .lib import api, absint, lin
-from .lib.routing import cond_facts, SELF
+from .lib.routing import cond_facts, outer_enters, truth_of, SELF
 from .lib.absint import fmt_val, fmt_loc, subterms
 from .lib.facts import AnalysisError
 
@@ -72,7 +72,7 @@ def r1(cx, chk, cfg, F):
             n += 1
             coa = calls(p, "Bloom::contains_or_add")
             inc = calls(p, "CountMinSketch::increment")
-            tr = [e for e in p.events if e["ev"] == "enter" and e["q"].endswith("TinyLFU::try_reset") and e["depth"] == 0]
+            tr = outer_enters(p, lambda e: e["q"].endswith("TinyLFU::try_reset"))
 
             def bad(what, msg):
                 nonlocal ok
@@ -149,10 +149,9 @@ def r2(cx, chk, cfg, F):
             if v == ("bin", "Add", W0, ("const", "usize", "1")) and len(st) == 1:
                 kinds.setdefault(path, set()).add("inc")
                 # reset iff w+1 >= samples
-                want = ("bin", "Ge", v, ("load", ("H", SELF, ("samples",)), 0))
-                t = [tt for c, tt, e in cond_facts(p) if c == want]
-                res = [e for e in p.events if e["ev"] == "enter" and e["depth"] == 0 and "TinyLFU" in e["q"] and e["q"].split("::")[-1] in ("reset", "clear")]
-                if not t or bool(res) != t[0]:
+                t = truth_of(cond_facts(p), "Ge", v, ("load", ("H", SELF, ("samples",)), 0))
+                res = outer_enters(p, lambda e: "TinyLFU" in e["q"] and e["q"].split("::")[-1] in ("reset", "clear"))
+                if t is None or bool(res) != t:
                     chk.violation("C11.R2", "try_reset|schedule|" + fn["q"], "%s increments w but does not reset exactly when w + 1 >= samples" % fn["q"], fn["span"]["file"], st[0].get("ln"), fn["q"], None, cfg)
             elif v == ("const", "usize", "0"):
                 dk = [e for e in calls(p, "Bloom::clear") if field_ref(e["args"][0], "doorkeeper") and e["fn"] == path]
@@ -255,14 +254,25 @@ def r3r4(cx, chk, cfg, F):
 _IDS = re.compile(r"[#@]\d+")
 
 
+def item_free(t):
+    """the term with every 'current item of an iteration' (for-loop `next()` payload or for_each/all/any item) replaced by one token, so
+    that the same index formula is recognised whichever loop form each function uses"""
+    if not isinstance(t, tuple):
+        return t
+    if t[0] == "iter_item":
+        return ("sym", "ITEM")
+    if t[0] == "proj" and isinstance(t[1], tuple) and t[1][0] == "call" and (t[1][2] or "").endswith("Iterator>::next"):
+        return ("sym", "ITEM")
+    return tuple(item_free(x) for x in t)
+
+
 def r5(cx, chk, cfg, F):
     def probes(fname, callee):
         f = F.find(BLOOM + "::" + fname)
         out = set()
         for p in cx.paths(cfg, f["path"]):
-            for e in p.events:
-                if e["ev"] == "enter" and e["q"] == BLOOM + "::" + callee and e["depth"] == 0:
-                    out.add(_IDS.sub("", fmt_val(e["args"][1])))
+            for e in outer_enters(p, lambda e: e["q"] == BLOOM + "::" + callee):
+                out.add(_IDS.sub("", fmt_val(item_free(e["args"][1]))))
         return f, out
     fa, pa = probes("add", "set")
     fc, pc = probes("contains", "is_set")
